@@ -517,6 +517,10 @@ extern "C" {
 
   static dr_clock_t 
   dr_get_tsc() {
+#ifdef MYTH_VERIF
+    /* verification seam: a harness-owned virtual clock makes recorded executions reproducible */
+    { extern dr_clock_t (*dr_verif_clock)(void); if (dr_verif_clock) return dr_verif_clock(); }
+#endif
     return dr_rdtsc();
   }
 
